@@ -7,10 +7,10 @@ props = [json.loads(l)["id"] for l in open(os.path.join(HERE, "properties.jsonl"
 
 # id -> (category, technique, level text, level note, design ref)
 CLAIMS = {
- "C01": ("exploration", "process-level monitor (spawned CLI binaries, byte-exact stdout/stderr/exit capture, JSON stream oracle) + in-process fd-1 capture + differential against the library model",
+ "C01": ("exploration", "process-level monitor (spawned CLI binaries, byte-exact stdout/stderr/exit capture, JSON stream oracle) + in-process fd-1 capture over generated system sections (every kind) + export/load differential against the library model under edge values",
          "hulc2model and thor are run as processes on the 12 shipped and on harness-written project directories x {default, --use-extra} x RUST_LOG settings; stdout must be exactly one JSON value that loads to the library's model (field-complete Debug equality); directories without project must exit non-zero without JSON; bytes reaching fd 1 during library calls are counted in-process. Held on the runs observed.",
          "trusted: serde_json's stream deserialiser as JSON oracle, the harness's printers; binaries rebuilt from /repo by ./check (dev profile; thorough also release)", "DESIGN.md §5 C01"),
- "C02": ("exploration", "invariant monitor (own closure walk over every converted model) under reference-breaking text edits; panic-site capture",
+ "C02": ("exploration", "invariant monitor (own closure walk over every converted model) under reference-breaking text edits, re-spelled names and generated system sections; panic-site capture",
          "Every shipped and generated project, and each of them with one referenced definition renamed/removed in the text, is converted; any Ok(model) must pass the harness's own 14-link closure walk and bemodel::check; panics are violations. Held on the conversions observed.",
          "trusted: the harness's link walker and independent BDL block reader", "DESIGN.md §5 C02"),
  "C03": ("exploration", "reference-model monitor (DOE-2 nesting in f64 from the source text via an independent reader) + metamorphic turn relation",
@@ -19,7 +19,7 @@ CLAIMS = {
  "C04": ("exploration", "differential round-trip monitor with a per-field default/non-default coverage matrix",
          "Generated models force each of 62 defaultable fields into both states (the run fails if a field is not seen in both); as_json/from_json must preserve every field (Debug text), re-serialise identically, omit default sections; shipped files must re-serialise to the same JSON value. Held on the models observed.",
          "trusted: derived Debug prints every field; -0.0 == 0.0", "DESIGN.md §5 C04"),
- "C05": ("exploration", "differential monitors: repeat / fresh process / 16 threads behind a barrier / id locality / A-before-B history pairs / table fingerprints / reference pairs",
+ "C05": ("exploration", "differential monitors: repeat / fresh process / 16 threads behind a barrier / id locality / A-before-B history pairs / table fingerprints / reference pairs; thorough adds a Miri run (tree borrows, 8 scheduler seeds) of a 2-thread workload",
          "Byte-identical export across repeats, fresh processes (varied environment) and threads; ids unchanged when unrelated definitions are appended; indicators of B independent of A computed before (incl. variants sharing ids); climate tables unchanged; 6 reference pairs equal as JSON values. Held on the schedules and histories observed; the number of distinct thread interleavings seen is reported.",
          "trusted: md5 as fingerprint; the helper process links the same library", "DESIGN.md §5 C05"),
  "C06": ("exploration", "reference-model monitor (interval-valued f64 re-computation of EN ISO 6946/13370/13789) + metamorphic monotonicity",
@@ -43,7 +43,7 @@ CLAIMS = {
  "C12": ("exploration", "reference-model monitor (exact f64 ray casting of the implementation's own sample points against first-principles obstacles and reveal quads) + metamorphic monotonicity; BVH path counters from the cfg-guarded hook",
          "Every window's f_shobst of generated (<=30 and >30 obstacles, roofs, set-back windows, elements without position) and real models against the exact reference; adding an obstacle never raises a factor; enclosed window = diffuse share; unobstructed >= 0.97. Held on the windows observed; evidence reports which BVH build paths were driven.",
          "plane irradiances from climate::radiation_for_surface (C20); sample points are the implementation's own", "DESIGN.md §5 C12"),
- "C13": ("exploration", "differential monitor (BVH vs exhaustive loop, instrumented element with a logical step budget) + exact-geometry reference for ray/polygon, bounding boxes and reveal surfaces",
+ "C13": ("exploration", "differential monitor (BVH vs exhaustive loop, instrumented element with a logical step budget) + exact-geometry reference for ray/polygon (random poses and lattice polygons with crossings level with a corner), bounding boxes and reveal surfaces",
          "Obstacle sets of size 0..200 in 6 families x leaf sizes x 64 rays; real occluders of generated models; 3..12-corner polygons in random poses against an exact winding-number test; reveal quads of set-back windows on walls of any pose. Held on the sets, poses and rays observed.",
          "1 mm / grazing ambiguity band; non-termination decided on aabb() call counts and the hook's node bound, not on time", "DESIGN.md §5 C13"),
  "C14": ("exploration", "totality monitor: catch_unwind with panic-site capture, CPU-budget and node-bound hang detection, poisoned-table probe, periodic baseline recomputation, finiteness scan",
@@ -58,10 +58,10 @@ CLAIMS = {
  "C17": ("exploration", "reference-model monitor (own calendar, own weekday expansion, own occupancy/load means)",
          "Yearly schedule expansion; conversion of harness-printed SCHEDULE-PD for all 365 end dates and random date lists, WEEK-SCHEDULE-PD incl. weeks where Monday's schedule reappears, DAY-SCHEDULE-PD with 24/1 values; occupied hours and mean load on generated and real models. Held on the schedules and models observed.",
          "weekly schedules not covering 7 days are outside the statement", "DESIGN.md §5 C17"),
- "C18": ("exploration", "print-parse monitor (abstract documents -> random layouts -> parsers) + typed-element comparison + layout invariance on the 68 real files",
+ "C18": ("exploration", "print-parse monitor (abstract documents -> random layouts -> parsers) + typed-element comparison incl. legacy forms with attributes left out + layout invariance on the 68 real files",
          "Random block documents and whole buildings printed in random layouts must be recovered attribute by attribute by build_blocks and field by field by Data::new; real files re-printed from their parsed blocks must parse to the same Data; KyG (old/new layout, both decimal separators) and tbl printers against their parsers. Held on the documents observed.",
          "grammar = what HULC/LIDER emit (quoted names, no '..' in names, value on the key's line)", "DESIGN.md §5 C18"),
- "C19": ("fault_enumeration", "fault enumeration: every single-edit corruption addressed by (file, line, edit kind); panic-site capture; CPU-budget hang verdicts",
+ "C19": ("fault_enumeration", "fault enumeration: every single-edit corruption of the shipped corpus addressed by (file, line, edit kind) + sampled single edits of generated projects with system sections; panic-site capture; CPU-budget hang verdicts",
          "Thorough enumerates every line of every shipped project/result file x 9 edit kinds (exhaustive over that finite space); quick takes a seeded slice. Each damaged file must be converted or rejected with an error; panics (deduplicated by file+function+message class) and CPU-budget overruns are violations.",
          "single edits only; catalogue parsed once per worker", "DESIGN.md §5 C19"),
  "C20": ("exploration", "reference-model monitor (spherical astronomy, own calendar) + radiation identities over the shipped weather file + table consistency",
